@@ -17,11 +17,11 @@ class Sink:
         from engine.inline import flatten
         F = ck.facts
         self.F = F
-        raw_send = F.fn(RS + "::send")
+        raw_send = F.fn(RS + "::send", flat=False)
         raw = self._resolve_roles(F, raw_send)
-        raw_io = F.fn(IO + "::send")
+        raw_io = F.fn(IO + "::send", flat=False)
         raw_ctor = [f for f in F.fn_all(FS + "::FileSink") if f.d.get("kind") == "ctor" and not f.d.get("copyctor") and not f.d.get("movector")][0]
-        raw_crc = F.fn("calculateCRC32")
+        raw_crc = F.fn("calculateCRC32", flat=False)
         # the functions the rules look at as units; every other private helper is spliced into its caller, so the
         # rules see the same code whether or not a maintainer has split a function
         self.units = {f.id for f in raw.values()} | {raw_send.id, raw_io.id, raw_ctor.id, raw_crc.id}
@@ -54,7 +54,7 @@ class Sink:
         def callees(f):
             return [F.fns[n["fn"]] for n in f.calls() if n.get("fn") in F.fns and F.fns[n["fn"]].cls == RP]
         for name in METHODS:
-            f = F.fn(RP + "::" + name, optional=True)
+            f = F.fn(RP + "::" + name, optional=True, flat=False)
             if f is not None:
                 out[name] = f
         def pick(name, cands, why):
